@@ -32,6 +32,26 @@ bool relabel(std::string& bytes, const std::vector<std::string>& U) {
 	return true;
 }
 
+// make two entries of the header string table equal (same length, so no offset moves): the table of a file may hold a
+// text twice, and indices stored inside opaque blocks may designate either entry
+bool duplicateString(std::string& bytes) {
+	HeaderInfo h = parseHeader(bytes);
+	if (!h.ok) return false;
+	for (size_t j = 1; j < h.strings.size(); j++)
+		for (size_t i = 0; i < j; i++)
+			if (!h.strings[i].empty() && h.strings[i].size() == h.strings[j].size() && h.strings[i] != h.strings[j]) {
+				std::string needle;
+				uint32_t n = (uint32_t) h.strings[j].size();
+				needle.append((const char*) &n, 4);
+				needle += h.strings[j];
+				size_t p = bytes.rfind(needle, h.hdrLen);
+				if (p == std::string::npos) continue;
+				bytes.replace(p + 4, n, h.strings[i]);
+				return true;
+			}
+	return false;
+}
+
 int cmdTables(int argc, char** argv) {
 	if (argc < 2) return 2;
 	Out out(argv[1]);
@@ -66,10 +86,13 @@ int cmdRun(int argc, char** argv) {
 			JArr ju;
 			for (auto& t : U) ju.add(relabelName(t));
 			// variants: plain load+save; strings of known blocks edited before saving; a copy (constructed / assigned) is saved
-			const char* variants[] = {"plain", "edited", "copied", "assigned"};
-			for (int vi = 0; vi < 4; vi++)
+			const char* variants[] = {"plain", "edited", "copied", "assigned", "duplicate-strings"};
+			const std::string original = bytes;
+			for (int vi = 0; vi < 5; vi++)
 				for (int def = 0; def < 2; def++) {
 					if (vi >= 2 && ((k + def) % 2)) continue; // copies: alternate the save option to bound the work
+					bytes = original;
+					if (vi == 4 && !duplicateString(bytes)) continue;
 					ContentIds ids;
 					NifFile loaded;
 					int rc = loadFromString(loaded, bytes);
